@@ -457,26 +457,28 @@ Section Sessions.
 
   (* the writer holds a schema writer for descriptor d *)
   Definition est (d : descriptor) (sch : schema) (st : wstate) : Prop :=
-    w_desc st = Some d /\ w_schema st = Some sch /\ w_writer st = WSchema sch /\ w_fp st = true /\ w_header st = Some sch.
+    w_desc st = Some d /\ w_schema st = Some sch /\ w_writer st = WSchema sch /\ w_fp st = true /\ w_header st = Some sch
+    /\ schema_parses sch = true.
 
   Lemma write_est d sch st r : est d sch st ->
     STEP st (OWrite r) =
     if desc_eqb d (r_desc r)
     then match enc_fields to_f32 of_int (map snd (s_fields sch)) (r_vals r) false with
          | EncOk l => (add_pending st (IRec l), Accepted)
-         | EncFail e j => ((if j then add_pending st IJunk else st), Refused e)
+         | EncFail e j => (st, Refused e)            (* refused by the dry run: nothing has changed *)
          end
     else (st, Refused EMixed).
   Proof.
-    destruct st as [de sc wr fp hd co pe]. unfold est. cbn. intros (-> & -> & -> & -> & ->).
+    destruct st as [de sc wr fp hd co pe]. unfold est. cbn. intros (-> & -> & -> & -> & -> & P).
     unfold step, do_write. cbn. destruct (desc_eqb d (r_desc r)); cbn; [|reflexivity].
-    destruct (enc_fields to_f32 of_int (map snd (s_fields sch)) (r_vals r) false) as [l|e j]; [reflexivity|].
-    destruct j; reflexivity.
+    rewrite P.
+    destruct (enc_fields to_f32 of_int (map snd (s_fields sch)) (r_vals r) false) as [l|e j] eqn:En; cbn; [|reflexivity].
+    rewrite En. reflexivity.
   Qed.
 
   Lemma flush_est d sch st : est d sch st -> STEP st OFlush = (commit st, Accepted).
   Proof.
-    destruct st as [de sc wr fp hd co pe]. unfold est. cbn. intros (-> & -> & -> & -> & ->). reflexivity.
+    destruct st as [de sc wr fp hd co pe]. unfold est. cbn. intros (-> & -> & -> & -> & -> & P). reflexivity.
   Qed.
 
   Lemma est_add d sch st it : est d sch st -> est d sch (add_pending st it).
@@ -486,12 +488,17 @@ Section Sessions.
 
   Definition st0 (d : descriptor) (sch : schema) : wstate := WState (Some d) (Some sch) (WSchema sch) true (Some sch) [] [].
 
+  Lemma mappable_parses d sch : descriptor_to_schema avro_cfg d = Some sch -> schema_parses sch = true.
+  Proof.
+    intros S. unfold descriptor_to_schema in S.
+    destruct (field_schemas avro_cfg (all_fields avro_cfg d)) as [fl|] eqn:F; [|discriminate].
+    inversion S. unfold schema_parses. cbn [s_fields]. apply (schema_of_mappable_parses _ _ F).
+  Qed.
+
   Lemma first_write r sch : descriptor_to_schema avro_cfg (r_desc r) = Some sch ->
     STEP w_init (OWrite r) = STEP (st0 (r_desc r) sch) (OWrite r).
   Proof.
-    intros S. assert (P : schema_parses sch = true).
-    { unfold descriptor_to_schema in S. destruct (field_schemas avro_cfg (all_fields avro_cfg (r_desc r))) as [fl|] eqn:F; [|discriminate].
-      inversion S. unfold schema_parses. cbn [s_fields]. apply (schema_of_mappable_parses _ _ F). }
+    intros S. pose proof (mappable_parses _ _ S) as P.
     unfold step, do_write, st0. cbn. rewrite S. cbn. rewrite P. cbn. rewrite desc_eqb_refl. cbn. reflexivity.
   Qed.
 
@@ -500,7 +507,7 @@ Section Sessions.
     exists st', do_close to_f32 of_int avro_cfg avro_code st = WOk st'
                 /\ file_of st' = File (Some sch) (w_committed (commit st)).
   Proof.
-    destruct st as [de sc wr fp hd co pe]. unfold est. cbn. intros (-> & -> & -> & -> & ->).
+    destruct st as [de sc wr fp hd co pe]. unfold est. cbn. intros (-> & -> & -> & -> & -> & P).
     unfold do_close. cbn. destruct pe; cbn; eexists; split; reflexivity.
   Qed.
 
@@ -516,10 +523,10 @@ Section Sessions.
       inversion Hsch. reflexivity.
     Qed.
 
-    Definition inv (st : wstate) (acc : list (list value)) (dirty : bool) : Prop :=
+    Definition inv (st : wstate) (acc : list (list value)) : Prop :=
       est d sch st
       /\ read_items us (w_committed st ++ w_pending st)%list false = (acc, REnd)
-      /\ (dirty_after (w_committed st ++ w_pending st)%list false = true -> dirty = true)
+      /\ dirty_after (w_committed st ++ w_pending st)%list false = false
       /\ dirty_after (w_committed st) false = false.
 
     Definition norm_rec (r : record) : list value := map (normalise to_f32) (r_vals r).
@@ -528,79 +535,66 @@ Section Sessions.
                                     /\ w_committed (add_pending st it) = w_committed st.
     Proof. destruct st. cbn. split; [now rewrite app_assoc|reflexivity]. Qed.
 
-    Lemma run_inv : forall ops st acc dirty,
-      inv st acc dirty ->
+    Lemma run_inv : forall ops st acc,
+      inv st acc ->
       (forall r, In (OWrite r) ops -> desc_eqb d (r_desc r) = true -> well_typed_rec avro_cfg d (r_vals r) = true) ->
-      safe_session avro_cfg d dirty ops = true ->
       forallb (fun r => times_ok (r_vals r)) (accepted avro_cfg d ops) = true ->
-      exists st' outs dirty',
+      exists st' outs,
         RUN st ops = (st', outs)
         /\ map is_accepted outs = map (expected_decision avro_cfg d) ops
-        /\ inv st' (acc ++ map norm_rec (accepted avro_cfg d ops))%list dirty'.
+        /\ inv st' (acc ++ map norm_rec (accepted avro_cfg d ops))%list.
     Proof.
-      induction ops as [|o ops IH]; intros st acc dirty I W S T.
-      - exists st, [], dirty. cbn. rewrite app_nil_r. auto.
-      - destruct I as (E & R & Dy & Dc).
+      induction ops as [|o ops IH]; intros st acc I W T.
+      - exists st, []. cbn. rewrite app_nil_r. auto.
+      - destruct I as (E & R & Dn & Dc).
         destruct o as [r|].
         + (* write *)
           cbn [run_ops]. rewrite (write_est d sch st r E).
-          cbn [safe_session accepted expected_decision] in *.
+          cbn [accepted expected_decision] in *.
           destruct (desc_eqb d (r_desc r)) eqn:Q.
           * assert (Wr : well_typed_rec avro_cfg d (r_vals r) = true) by (apply W; [now left|exact Q]).
             pose proof (rec_sound to_f32 of_int _ _ (r_vals r) false sch_fields Wr) as RS. fold us in RS.
             fold us. destruct (enc_fields to_f32 of_int us (r_vals r) false) as [l|e j].
             -- destruct RS as [Rp Ld]. change (all2 (rp_f) (all_fields avro_cfg d) (r_vals r)) with (representable_rec avro_cfg d (r_vals r)) in Rp.
-               rewrite Rp in *. cbn [andb] in *. apply andb_true_iff in S. destruct S as [Sd S]. apply negb_true_iff in Sd. subst dirty.
+               rewrite Rp in *. cbn [andb] in *.
                cbn [forallb] in T. apply andb_true_iff in T. destruct T as [Tr T]. rewrite Tr in Ld.
-               assert (Dn : dirty_after (w_committed st ++ w_pending st)%list false = false).
-               { destruct (dirty_after (w_committed st ++ w_pending st)%list false); [|reflexivity]. now specialize (Dy eq_refl). }
                destruct (add_pending_items st (IRec l)) as [A1 A2].
-               destruct (IH (add_pending st (IRec l)) (acc ++ [norm_rec r])%list false) as (st' & outs & dirty' & Hr & Ho & Hi).
+               destruct (IH (add_pending st (IRec l)) (acc ++ [norm_rec r])%list) as (st' & outs & Hr & Ho & Hi).
                { split; [now apply est_add|]. split; [|split].
                  - rewrite A1. rewrite read_items_app, R, Dn. cbn. rewrite Ld. reflexivity.
-                 - rewrite A1. rewrite dirty_after_app. cbn. discriminate.
+                 - rewrite A1. rewrite dirty_after_app. reflexivity.
                  - rewrite A2. exact Dc. }
                { intros r' Hin. apply W. now right. }
-               { exact S. }
                { exact T. }
-               exists st', (Accepted :: outs), dirty'. rewrite Hr. split; [reflexivity|]. split; [cbn [map expected_decision is_accepted]; now rewrite Q, Rp, Ho|].
+               exists st', (Accepted :: outs). rewrite Hr. split; [reflexivity|]. split; [cbn [map expected_decision is_accepted]; now rewrite Q, Rp, Ho|].
                cbn [map]. rewrite <- app_assoc in Hi. exact Hi.
             -- change (all2 (rp_f) (all_fields avro_cfg d) (r_vals r)) with (representable_rec avro_cfg d (r_vals r)) in RS.
                rewrite RS in *. cbn [andb] in *.
-               set (stx := if j then add_pending st IJunk else st).
-               destruct (IH stx acc true) as (st' & outs & dirty' & Hr & Ho & Hi).
-               { unfold stx. destruct j.
-                 - destruct (add_pending_items st IJunk) as [A1 A2]. split; [now apply est_add|]. split; [|split].
-                   + rewrite A1. rewrite read_items_app, R. cbn. now rewrite app_nil_r.
-                   + reflexivity.
-                   + rewrite A2. exact Dc.
-                 - split; [exact E|]. split; [exact R|]. split; [reflexivity|exact Dc]. }
+               destruct (IH st acc) as (st' & outs & Hr & Ho & Hi).
+               { split; [exact E|]. split; [exact R|]. split; [exact Dn|exact Dc]. }
                { intros r' Hin. apply W. now right. }
-               { exact S. }
                { exact T. }
-               exists st', (Refused e :: outs), dirty'. rewrite Hr. split; [reflexivity|]. split; [cbn [map expected_decision is_accepted]; now rewrite Q, RS, Ho|exact Hi].
+               exists st', (Refused e :: outs). rewrite Hr. split; [reflexivity|]. split; [cbn [map expected_decision is_accepted]; now rewrite Q, RS, Ho|exact Hi].
           * cbn [andb] in *.
-            destruct (IH st acc dirty) as (st' & outs & dirty' & Hr & Ho & Hi).
-            { split; [exact E|]. split; [exact R|]. split; [exact Dy|exact Dc]. }
+            destruct (IH st acc) as (st' & outs & Hr & Ho & Hi).
+            { split; [exact E|]. split; [exact R|]. split; [exact Dn|exact Dc]. }
             { intros r' Hin. apply W. now right. }
-            { exact S. }
             { exact T. }
-            exists st', (Refused EMixed :: outs), dirty'. rewrite Hr. split; [reflexivity|]. split; [cbn [map expected_decision is_accepted]; now rewrite Q, Ho|exact Hi].
+            exists st', (Refused EMixed :: outs). rewrite Hr. split; [reflexivity|]. split; [cbn [map expected_decision is_accepted]; now rewrite Q, Ho|exact Hi].
         + (* flush *)
-          cbn [run_ops]. rewrite (flush_est d sch st E). cbn [safe_session accepted expected_decision] in *.
-          destruct (IH (commit st) acc false) as (st' & outs & dirty' & Hr & Ho & Hi).
+          cbn [run_ops]. rewrite (flush_est d sch st E). cbn [accepted expected_decision] in *.
+          destruct (IH (commit st) acc) as (st' & outs & Hr & Ho & Hi).
           { split; [now apply est_commit|]. destruct st as [de sc wr fp hd co pe]. cbn in *. unfold commit. cbn.
             destruct pe as [|p pe]; cbn [w_committed w_pending].
-            - rewrite app_nil_r in *. split; [exact R|]. split; [|exact Dc]. rewrite Dc. discriminate.
+            - rewrite app_nil_r in *. split; [exact R|]. split; [exact Dc|exact Dc].
             - rewrite app_nil_r. change (co ++ p :: pe ++ [IBlockEnd])%list with (co ++ (p :: pe) ++ [IBlockEnd])%list.
               rewrite app_assoc. split; [|split].
               + rewrite read_items_app, R. cbn. now rewrite app_nil_r.
-              + rewrite dirty_after_app. cbn. discriminate.
+              + rewrite dirty_after_app. reflexivity.
               + rewrite dirty_after_app. reflexivity. }
           { intros r' Hin. apply W. now right. }
-          { exact S. }
           { exact T. }
-          exists st', (Accepted :: outs), dirty'. rewrite Hr. split; [reflexivity|]. split; [cbn [map expected_decision is_accepted]; now rewrite Ho|exact Hi].
+          exists st', (Accepted :: outs). rewrite Hr. split; [reflexivity|]. split; [cbn [map expected_decision is_accepted]; now rewrite Ho|exact Hi].
     Qed.
 
     Lemma commit_read st acc : read_items us (w_committed st ++ w_pending st)%list false = (acc, REnd) ->
@@ -642,7 +636,6 @@ Section Sessions.
     wf_descriptor d = true ->
     descriptor_to_schema avro_cfg d = Some sch ->
     (forall r, In (OWrite r) ops -> desc_eqb d (r_desc r) = true -> well_typed_rec avro_cfg d (r_vals r) = true) ->
-    safe_session avro_cfg d false ops = true ->
     forallb (fun r => times_ok (r_vals r)) (accepted avro_cfg d ops) = true ->
     exists f outs,
       session to_f32 of_int avro_cfg avro_code ops = (f, outs, Accepted)
@@ -650,10 +643,10 @@ Section Sessions.
       /\ read_flow of_int avro_cfg f = FlowRead d (map (fun r => map (normalise to_f32) (r_vals r)) (accepted avro_cfg d ops)) REnd
       /\ exists its, f = File (Some sch) its.
   Proof.
-    intros r0 rest sch d ops Wf S W Sf T.
-    assert (I0 : inv d sch (st0 d sch) [] false).
-    { unfold inv, st0, est. cbn. repeat split; auto; discriminate. }
-    destruct (run_inv d sch S ops (st0 d sch) [] false I0 W Sf T) as (st' & outs & dirty' & Hr & Ho & (E & R & _ & _)).
+    intros r0 rest sch d ops Wf S W T.
+    assert (I0 : inv d sch (st0 d sch) []).
+    { unfold inv, st0, est. cbn. pose proof (mappable_parses d sch S). repeat split; auto. }
+    destruct (run_inv d sch S ops (st0 d sch) [] I0 W T) as (st' & outs & Hr & Ho & (E & R & _ & _)).
     assert (Hr' : RUN w_init ops = (st', outs)).
     { unfold ops in *. cbn [run_ops] in *. rewrite (first_write r0 sch S). exact Hr. }
     destruct (close_est d sch st' E) as (st'' & Hc & Hf).
@@ -684,13 +677,13 @@ Section Writes.
   Lemma write_unrepresentable d sch st r :
     descriptor_to_schema avro_cfg d = Some sch -> est d sch st -> desc_eqb d (r_desc r) = true ->
     well_typed_rec avro_cfg d (r_vals r) = true -> representable_rec avro_cfg d (r_vals r) = false ->
-    exists e st', STEP st (OWrite r) = (st', Refused e) /\ (st' = st \/ st' = add_pending st IJunk).
+    exists e, STEP st (OWrite r) = (st, Refused e).
   Proof.
     intros S E Q W R. rewrite (write_est to_f32 of_int d sch st r E), Q.
     pose proof (rec_sound to_f32 of_int _ _ (r_vals r) false (sch_fields d sch S) W) as RS.
     destruct (enc_fields to_f32 of_int (map snd (s_fields sch)) (r_vals r) false) as [l|e j].
     - destruct RS as [Rp _]. unfold representable_rec in R. unfold rp_f in Rp. rewrite Rp in R. discriminate.
-    - exists e. eexists. split; [reflexivity|]. destruct j; auto.
+    - exists e. reflexivity.
   Qed.
 
   Lemma write_representable d sch st r :
@@ -802,14 +795,13 @@ Section Clean.
     /\ representable_rec avro_cfg d (r_vals r) = true /\ times_ok (r_vals r) = true.
 
   Lemma clean_facts d : forall rs, Forall (good_rec d) rs ->
-    safe_session avro_cfg d false (map OWrite rs) = true
-    /\ accepted avro_cfg d (map OWrite rs) = rs
+    accepted avro_cfg d (map OWrite rs) = rs
     /\ map (expected_decision avro_cfg d) (map OWrite rs) = map (fun _ => true) rs.
   Proof.
     induction rs as [|r rs IH]; intros H; [cbn; auto|].
-    pose proof (Forall_inv H) as (Hd & Hw & Hr & Ht). pose proof (Forall_inv_tail H) as Hrs. destruct (IH Hrs) as (A & B & C).
-    cbn [map safe_session accepted expected_decision]. rewrite Hd, desc_eqb_refl, Hr. cbn [andb negb].
-    rewrite A, B, C. auto.
+    pose proof (Forall_inv H) as (Hd & Hw & Hr & Ht). pose proof (Forall_inv_tail H) as Hrs. destruct (IH Hrs) as (B & C).
+    cbn [map accepted expected_decision]. rewrite Hd, desc_eqb_refl, Hr. cbn [andb].
+    rewrite B, C. auto.
   Qed.
 
   Lemma all_accepted : forall outs (rs : list record),
@@ -829,7 +821,7 @@ Section Clean.
       /\ read_flow of_int avro_cfg f = FlowRead d (map (fun r => map (normalise to_f32) (r_vals r)) (r0 :: rs)) REnd.
   Proof.
     intros r0 rs sch d Wf S G. subst d. set (d := r_desc r0) in *.
-    destruct (clean_facts d (r0 :: rs) G) as (A & B & C). unfold d in *. clear d.
+    destruct (clean_facts d (r0 :: rs) G) as (B & C). unfold d in *. clear d.
     assert (W : forall r, In (OWrite r) (OWrite r0 :: map OWrite rs) -> desc_eqb (r_desc r0) (r_desc r) = true ->
                           well_typed_rec avro_cfg (r_desc r0) (r_vals r) = true).
     { intros r Hin _. change (OWrite r0 :: map OWrite rs) with (map OWrite (r0 :: rs)) in Hin.
@@ -838,7 +830,7 @@ Section Clean.
     assert (T : forallb (fun r => times_ok (r_vals r)) (accepted avro_cfg (r_desc r0) (OWrite r0 :: map OWrite rs)) = true).
     { change (OWrite r0 :: map OWrite rs) with (map OWrite (r0 :: rs)). rewrite B. apply forallb_forall.
       intros r Hin. rewrite Forall_forall in G. apply (G r Hin). }
-    destruct (session_sound to_f32 of_int r0 (map OWrite rs) sch Wf S W A T) as (f & outs & Hs & Ho & Hf & _).
+    destruct (session_sound to_f32 of_int r0 (map OWrite rs) sch Wf S W T) as (f & outs & Hs & Ho & Hf & _).
     exists f. change (OWrite r0 :: map OWrite rs) with (map OWrite (r0 :: rs)) in *.
     rewrite C in Ho. rewrite (all_accepted outs (r0 :: rs) Ho) in Hs. rewrite B in Hf. auto.
   Qed.
@@ -851,14 +843,27 @@ Definition w_noint (z : Z) : N := 0%N.
 Definition w_res : list value := [VNone; VNone; VTime 1588660193123456 19807000000; VInt 1].
 Definition w_dab : descriptor := Desc "test/a" [("string", "a"); ("uint32", "b")].
 
-Lemma refuted_refused_then_accepted :
-  let ops := [OWrite (Rec w_dab ([VText [116; 119; 111]%N; VInt 2147483648] ++ w_res)%list);
-              OWrite (Rec w_dab ([VText [2; 2; 2; 2]%N; VInt 7] ++ w_res)%list)] in
+(* AvroWriter.write as it was before the dry run was added (repository commit 15e4336) *)
+Definition code_without_dry_run : wcode := {|
+  code_write := [When CNoDesc [Do SetDesc; Do MakeSchema; Do ParseSchema; Do MakeWriter]; When CDescDiffers [Do RaiseMixed];
+                 Do WriterWrite];
+  code_flush := code_flush avro_code;
+  code_close := code_close avro_code |}.
+
+Definition w_ops_refused_then_accepted : list op :=
+  [OWrite (Rec w_dab ([VText [116; 119; 111]%N; VInt 2147483648] ++ w_res)%list);
+   OWrite (Rec w_dab ([VText [2; 2; 2; 2]%N; VInt 7] ++ w_res)%list)].
+
+Lemma refuted_without_dry_run :
+  let ops := w_ops_refused_then_accepted in
   (forall r, In (OWrite r) ops -> well_typed_rec avro_cfg w_dab (r_vals r) = true)
+  /\ snd (fst (session w_id32 w_noint avro_cfg code_without_dry_run ops)) = [Refused EValue; Accepted]
+  /\ read_flow w_noint avro_cfg (fst (fst (session w_id32 w_noint avro_cfg code_without_dry_run ops))) = FlowRead w_dab [] RCorrupt
   /\ snd (fst (session w_id32 w_noint avro_cfg avro_code ops)) = [Refused EValue; Accepted]
-  /\ read_flow w_noint avro_cfg (fst (fst (session w_id32 w_noint avro_cfg avro_code ops))) = FlowRead w_dab [] RCorrupt.
+  /\ read_flow w_noint avro_cfg (fst (fst (session w_id32 w_noint avro_cfg avro_code ops)))
+     = FlowRead w_dab [[VText [2; 2; 2; 2]%N; VInt 7; VNone; VNone; VTime 1588660193123456 0; VInt 1]] REnd.
 Proof.
-  cbv zeta. split; [|split; vm_compute; reflexivity].
+  cbv zeta. split; [|repeat split; vm_compute; reflexivity].
   intros r [H|[H|[]]]; inversion H; subst; vm_compute; reflexivity.
 Qed.
 
